@@ -13,6 +13,7 @@ pub mod c11;
 pub mod c12;
 pub mod c13;
 pub mod c14;
+pub mod c15;
 pub mod c16;
 pub mod c17;
 pub mod c18;
@@ -33,6 +34,8 @@ pub fn dispatch(id: &str, tier: Tier, seed: u64, extra: &[String]) -> i32 {
         "C12" => c12::run(&Ctx::new("C12", tier, seed)),
         "C13" => c13::run(&Ctx::new("C13", tier, seed)),
         "C14" => c14::run(&Ctx::new("C14", tier, seed)),
+        "C15" => c15::run(&Ctx::new("C15", tier, seed)),
+        "C15-child" => c15::child(seed),
         "C16" => c16::run(&Ctx::new("C16", tier, seed)),
         "C17" => c17::run(&Ctx::new("C17", tier, seed)),
         "C18" => c18::run(&Ctx::new("C18", tier, seed)),
